@@ -457,3 +457,27 @@ def long_line(k, pat, cutsel, crlf, lim=70000):
     if not same_json(main, [m1, m2]):
         return "main-stream-differs"
     return "ok"
+
+
+def text_line(i, cutsel, crlf):
+    """content corpus: a line whose JSON string carries the i-th 'active' text RAW, between two ordinary lines"""
+    m0 = {"jsonrpc": "2.0", "id": 0, "result": {}}
+    m1 = {"jsonrpc": "2.0", "id": 1, "result": {"t": _sizes.pick_text(i), "k": [_sizes.pick_text(i)]}}
+    m2 = {"jsonrpc": "2.0", "method": "notifications/message", "params": {"d": "after"}}
+    nl = b"\r\n" if crlf else b"\n"
+    head = _json.dumps(m0).encode() + nl + _json.dumps(m1, ensure_ascii=False).encode("utf-8")
+    text = head + nl + _json.dumps(m2).encode("utf-8") + nl
+    if cutsel == 0:
+        c = max(len(head) - 3, 0)
+        parts = [text[:c], text[c:]]
+    elif cutsel == 1:
+        parts = [text[a:a + 5] for a in range(0, len(text), 5)]
+    else:
+        parts = [text]
+    c, _ = _run_reader(parts, record_json=False)
+    main = [dump(m) for m in c._incoming_send.items]
+    if len(main) != 3:
+        return "line-with-active-text-lost-or-split:%d" % len(main)
+    if not same_json(main, [m0, m1, m2]):
+        return "main-stream-differs"
+    return "ok"
